@@ -108,6 +108,10 @@ def cases(tier, seed):
                        [3, 12, 48, 2 ** (d - 1)], [1, 6, 24, 33 + 64 * (d > 6)]):
                 add('inv', cfg, ka)
             add('div', cfg, [0, 3], kb=[1, 2 ** d - 1])
+            # the same kind of operands with the scalar part stored second / last (storage order is the caller's choice)
+            for ka in ([1, 0, 6], [6, 1, 0], [3, 12, 0, 48]):
+                add('inv', cfg, ka)
+            add('div', cfg, [3, 0], kb=[2 ** d - 1, 0, 1])
     # routes that resolve the generated division/inverse by name: several denominators on one algebra
     for route in ('wrapper', 'register'):
         for cfg in (dict(p=2), dict(p=3), dict(p=2, r=1), dict(p=1, q=2)):
